@@ -236,6 +236,10 @@ func (g *gen) value() string {
 		if g.chance(25) {
 			return "-(" + g.expr() + ")"
 		}
+		if g.chance(35) { // a prefix operator applied directly to another one, spaced so that the input tokenizes
+			ops := []string{"-", "+", "~", "!", "binary ", "NOT "}
+			return g.pick(ops...) + " " + g.pick(ops[:5]...) + " " + g.pick(g.column(), g.literal(), g.pick(ops[:4]...)+" "+g.column())
+		}
 		return g.pick("-", "- ", "~", "!", "+", "- -") + g.value()
 	case 14, 15: // function call
 		name := g.funcName()
